@@ -22,12 +22,33 @@
 (* A pack is a record: the header fields pcode, oid, okind, onode, time    *)
 (* and the fields its body layout names.                                   *)
 (***************************************************************************)
-EXTENDS Value, TLC
+EXTENDS Value, TLC, Bitwise
 
 H == INSTANCE Hashes WITH memo <- <<>>
 
-\* the 64-bit hash of the protocol (license text, encoded tag map)
-Hash64(bs) == H!Crc32Wide64(bs)
+(* The 64-bit hash of the protocol (license text, encoded tag map): the      *)
+(* function Hashes!Crc32Wide64 (C15) -- the table-driven CRC-32 loop run in  *)
+(* a 64-bit register preset to all ones, the 32-bit table entry sign-        *)
+(* extended before the XOR, result complemented.  Restated here over the     *)
+(* SAME derived table (Hashes!CrcTable, forced into a tuple once) with the   *)
+(* register written out byte by byte, because tag maps are kilobytes long;   *)
+(* MC_PackWire checks Hash64 = Hashes!Crc32Wide64 on test strings.           *)
+CrcTab == [i \in 1..256 |-> H!CrcTable[i - 1]] \o <<>>
+H64Step(crc, b) ==
+  Bind(CrcTab[(crc[8] ^^ b) + 1], LAMBDA e :
+  Bind(IF e[1] >= 128 THEN 255 ELSE 0, LAMBDA se :
+       <<se, crc[1] ^^ se, crc[2] ^^ se, crc[3] ^^ se,
+         crc[4] ^^ e[1], crc[5] ^^ e[2], crc[6] ^^ e[3], crc[7] ^^ e[4]>>))
+\* the bytes bs[lo..hi] through the register, by halving (the recursion stays shallow)
+RECURSIVE H64Range(_, _, _, _)
+H64Range(bs, lo, hi, crc) ==
+  IF lo > hi THEN crc
+  ELSE IF lo = hi THEN Bind(crc, LAMBDA c : H64Step(c, bs[lo]))
+  ELSE Bind(H64Range(bs, lo, (lo + hi) \div 2, crc), LAMBDA c : H64Range(bs, (lo + hi) \div 2 + 1, hi, c))
+H64Loop(bs, i, crc) == H64Range(bs, i, Len(bs), crc)
+Hash64(bs) == Bind(bs, LAMBDA b :
+                Bind(H64Loop(b, 1, <<255, 255, 255, 255, 255, 255, 255, 255>>), LAMBDA r :
+                  [i \in 1..8 |-> 255 - r[i]] \o <<>>))
 
 -----------------------------------------------------------------------------
 (* Part 1: layouts                                                         *)
@@ -268,21 +289,26 @@ EventAttrs(p) ==
 \* the tag hash: the 64-bit hash of the encoded tag map (0 for no tags)
 TagHashOf(tags) == IF Len(tags.v) = 0 THEN Z8 ELSE Hash64(EncValue(tags))
 
+\* the record that is laid out, but for the tag hash: the optional field
+\* section of a log-sink pack, the attributes of an event with its reserved keys
+Shaped(kind, p) ==
+  CASE kind = "logsink" -> [fieldsOpt |-> IF Len(p.fields.v) = 0 THEN <<>> ELSE <<[map |-> p.fields]>>] @@ p
+    [] kind = "event"   -> [attrsWire |-> EventAttrs(p)] @@ p
+    [] OTHER -> p
+
 \* the record that is laid out.  tag-count: the hash always describes the
 \* tags (the pack offers no way to set it).  log-sink: the hash is a public
 \* field; 0 with a non-empty tag map means "to be computed".
 Wire(kind, p) ==
   CASE kind = "tagcount" -> [p EXCEPT !.tagHash = TagHashOf(p.tags)]
-    [] kind = "logsink"  -> [fieldsOpt |-> IF Len(p.fields.v) = 0 THEN <<>> ELSE <<[map |-> p.fields]>>]
-                            @@ [p EXCEPT !.tagHash = IF @ = Z8 THEN TagHashOf(p.tags) ELSE @]
-    [] kind = "event"    -> [attrsWire |-> EventAttrs(p)] @@ p
-    [] OTHER -> p
+    [] kind = "logsink"  -> [Shaped(kind, p) EXCEPT !.tagHash = IF @ = Z8 THEN TagHashOf(p.tags) ELSE @]
+    [] OTHER -> Shaped(kind, p)
 
 \* the pack is within the limits of the layout
-Fits(kind, p) == FitsRec(Body[kind], Wire(kind, p))
+Fits(kind, p) == Bind(Shaped(kind, p), LAMBDA w : FitsRec(Body[kind], w))
 
 \* pack type, header, body: what ToBytesPack must produce
-PackBytes(kind, p) == TypeCode[kind] \o EncHeader(p) \o EncRec(Body[kind], Wire(kind, p))
+PackBytes(kind, p) == Bind(Wire(kind, p), LAMBDA w : TypeCode[kind] \o EncHeader(p) \o EncRec(Body[kind], w))
 
 KindOfCode(c) == IF \E k \in Kinds : TypeCode[k] = c THEN CHOOSE k \in Kinds : TypeCode[k] = c ELSE "unknown"
 
@@ -372,13 +398,13 @@ SameFields(dv, w) == \A n \in DOMAIN dv : n \in DOMAIN w /\ dv[n] = w[n]
 Decodes(kind, p, body) ==
   Bind(DecPack(body, 1), LAMBDA d :
     /\ d.ok /\ d.kind = kind /\ d.next = Len(body) + 1
-    /\ SameFields(d.v, Wire(kind, p)))
+    /\ Bind(Wire(kind, p), LAMBDA w : SameFields(d.v, w)))
 
 \* a message decodes the same whatever follows it
 MsgSelfDelimits(kind, p, body) ==
   Bind(DecPack(body \o <<9, 7, 255, 0>>, 1), LAMBDA d :
     /\ d.ok /\ d.kind = kind /\ d.next = Len(body) + 1
-    /\ SameFields(d.v, Wire(kind, p)))
+    /\ Bind(Wire(kind, p), LAMBDA w : SameFields(d.v, w)))
 
 \* no proper prefix of a message decodes
 MsgPrefixesFail(body) == \A k \in 0..(Len(body) - 1) : ~DecPack(High(body, k), 1).ok
